@@ -128,8 +128,9 @@ def applySetter (ops : FOps) (σ : Setter) (r : Row) : Res Row :=
     (putLoops (r.loops.1.set k (writeLoop v), r.loops.2)).bind fun q =>
     .ok { r with loops := q }
   | .loops v =>
+    -- read-modify-write: the stored blob's trailing `extra_data` is kept
     (writeLoops v).bind fun ls =>
-    (putLoops (ls, [])).bind fun q =>
+    (putLoops (ls, r.loops.2)).bind fun q =>
     .ok { r with loops := q }
   | .mainCue v =>
     let c := v.getD 0
@@ -152,8 +153,9 @@ def applySetter (ops : FOps) (σ : Setter) (r : Row) : Res Row :=
   | .title v => .ok { r with title := v }
   | .trackNumber v => .ok { r with playOrder := v.map sext32 }
   | .waveform w =>
+    -- read-modify-write: the stored blob's trailing `extra_data` is kept
     (writeWaveform ops w (getSampleCount r) (getSampleRate r)).bind fun o =>
-    .ok { r with ovw := (o, []) }
+    .ok { r with ovw := (o, r.ovw.2) }
   | .year v => .ok { r with year := v.map sext32 }
 
 /-! ### the table -/
